@@ -18,7 +18,11 @@ import ScrutModel.Props.C04
 import ScrutModel.Props.C08
 import ScrutModel.Props.C10
 import ScrutModel.Props.C09
--- corollaries about the integrated model of `scrut test` (Model/TestRun.lean); no property file depends on them
+-- bridging lemmas about the integrated model of `scrut test` (Model/TestRun.lean); the property theorems about
+-- the integrated model (Lemmas/TestRunProps.lean) are stated in Props/C01, C05, C15, C20
 import ScrutModel.Lemmas.TestRun
--- the integrated executable model of `scrut update --replace` (Model/UpdateRun.lean); tied to the binary by the harness (op `upddoc`), no property file depends on it
+import ScrutModel.Lemmas.TestRunProps
+-- the integrated executable model of `scrut update --replace` (Model/UpdateRun.lean); tied to the binary by the harness (op `upddoc`);
+-- its theorems (Lemmas/UpdateRunProps, UpdateRunAlign, UpdateRunRejudge, UpdateRunReparse, UpdateRunWitness) are stated in Props/C10 and Props/C09
 import ScrutModel.Model.UpdateRun
+import ScrutModel.Lemmas.UpdateRunWitness
